@@ -160,6 +160,7 @@ def request_line(name, a, b, exact=False, delta=None, printed=None, spelling=Non
 from pedal.sandbox.commands import CommandBlock, clear_output as _clear_output  # noqa: E402
 
 EXEC_KINDS = ("say", "sayraw", "quiet", "boom", "sayboom", "evalsay", "eval", "runcode", "rerun", "missing")
+HISTORY_LIMIT = 1500        # executions after which a history starts on a fresh sandbox (see ac.renew)
 _open_blocks = []
 _live = {"key": None, "out": None}
 _name_counter = [0]
@@ -257,6 +258,8 @@ def run_history(steps, left=None, right=None):
     business"""
     end_history()
     ac.setup()
+    if len(getattr(ac.get_sandbox(), "_context", ())) > HISTORY_LIMIT:
+        ac.renew()
     ac.call("say_quiet")
     _clear_output()
     out = {"ops": [], "L": None, "R": None}
